@@ -14,6 +14,7 @@ type histProp struct {
 	id          string
 	store       Store
 	maxLen      int
+	quickDocs   int // number of starting documents used in quick (0 = all)
 	quickN      int // histories per (doc, faulty) in quick
 	thoroughN   int
 	rule        string
@@ -50,7 +51,14 @@ func (p histProp) Units(tier string, seed int64) ([]core.Unit, error) {
 		n = p.thoroughN
 	}
 	batch := 25
-	for _, doc := range p.store.Docs() {
+	if p.maxLen > 20 {
+		batch = 4
+	}
+	docs := p.store.Docs()
+	if tier == "quick" && p.quickDocs > 0 && len(docs) > p.quickDocs {
+		docs = docs[:p.quickDocs]
+	}
+	for _, doc := range docs {
 		for _, faulty := range []bool{false, true} {
 			for done := 0; done < n; done += batch {
 				k := batch
@@ -114,6 +122,7 @@ func (p histProp) RunUnit(raw core.Unit, tier string, seed int64) core.UnitResul
 		res.Probes["crash_snapshot_read_as_before"] += st.CrashBefore
 		res.Probes["crash_snapshot_read_as_after"] += st.CrashAfter
 		res.Probes["fault_absorbed_step_succeeded"] += st.Absorbed
+		res.Probes["steps_skipped_out_of_alphabet_after_failed_step"] += st.Skipped
 		if st.OK > 0 {
 			res.Nontrivial = append(res.Nontrivial, histKey(h))
 		}
@@ -155,29 +164,7 @@ func histKey(h History) string {
 	return h.Doc + "|" + strings.Join(stepStrings(h), ";")
 }
 
-var modelCache = map[string]Model{}
-
-func (p histProp) initialModel(doc string) (Model, error) {
-	key := p.id + "|" + doc
-	if m, ok := modelCache[key]; ok {
-		return m.Clone(), nil
-	}
-	dir, err := mkScratch()
-	if err != nil {
-		return nil, err
-	}
-	defer rmScratch(dir)
-	path := dir + "/doc.pdf"
-	if err := p.store.Materialise(doc, path); err != nil {
-		return nil, err
-	}
-	m, err := p.store.NewModel(path)
-	if err != nil {
-		return nil, err
-	}
-	modelCache[key] = m
-	return m.Clone(), nil
-}
+func (p histProp) initialModel(doc string) (Model, error) { return initialModelOf(p.store, doc) }
 
 func (p histProp) Replay(payload json.RawMessage) ([]core.Violation, error) {
 	var h History
